@@ -114,6 +114,8 @@ def c01(ctx, res):
     # sessions of the integrated specification: every history of key-folding / prefix setters interleaved with decodes
     # (the decoder is a function of the registers at the time of the call: nothing is carried from one decode to the next)
     ctx.gen_replay(res, "mxj", "Mxj.tla", "Mxj_dec.cfg" if ctx.quick else "Mxj_dec_thorough.cfg", procs=8)
+    # structure under the cast flag with the integer register on/off (the cast chain itself is C14): repeated simple siblings
+    ctx.gen_replay(res, "mxj", "Mxj.tla", "Mxj_castint.cfg", procs=4)
     xml_trace(ctx, res, "dec")
     # the repository's own test suite, observed: every NewMapXml call it makes (hook VerifOnDecode) against the decode specification
     ctx.repo_tests_trace(res)
